@@ -177,6 +177,11 @@ class SPoint(Point):
     def get_name(self): return self.name
     def set_name(self, name): self.name = name
 
+    @property
+    def decomposition_dict(self):
+        """read-only view of the normal form (keys: base symbols), for code that inspects a decomposition"""
+        return dict(self.c)
+
     def __add__(self, o):
         if not isinstance(o, SPoint):
             raise AssertionError('Point + non-Point')
